@@ -414,14 +414,14 @@ func finish(c *Ctx, pd *propDef) int {
 		case regressed[it.Name] != "":
 			// no failing input: before reporting a lost proof, retry with a long timeout on every back end
 			if it.Script != "" {
-				r := vc.Race(strings.Replace(it.Script, "(set-option :produce-models true)\n", "", 1), 60*time.Second, vc.Solvers)
+				r := vc.Race(strings.Replace(it.Script, "(set-option :produce-models true)\n", "", 1), 20*time.Second, vc.Solvers)
 				if r.Status == "unsat" {
 					it.Status, it.Solver, it.Secs = "discharged", r.Solver+" (long timeout)", r.Secs
 					discharged++
 					c.Notes = append(c.Notes, "slow proof (discharged only with the long timeout): "+it.Name)
 					continue
 				}
-				it.Model += "\nretry with 60 s on all back ends: " + r.Status
+				it.Model += "\nretry with 20 s on all back ends: " + r.Status
 			}
 			viols = append(viols, viol{it, oc, regressed[it.Name]})
 		case it.Status == "bounded-fail":
